@@ -1,10 +1,12 @@
 (* WriterProofs.v — C09: a call refused for a reason known before writing changes nothing;
    refused calls can be erased from any sequence; a short source is never reported as success. *)
+From MLA Require Import Limit.
 From MLA Require Import Base Stream Blocks Writer.
 From Coq Require Import ZifyBool ZifyNat ZifyN.
 Open Scope N_scope.
 
 Section WriterProofs.
+  Context {LIM : Limit}.
   Variable FNMAX : N.
   Variables T_START T_CONTENT T_EOA T_EOF : N.
   Variable H : bytes -> bytes.
@@ -55,10 +57,68 @@ Section WriterProofs.
     destruct (alookup (w_open s) id); [discriminate | intros [= <- <-]; auto].
   Qed.
 
-  Lemma w_finalize_refused s s' e : w_finalize_with order s = (s', Err e) -> s' = s /\ e = EState.
+  (* finalize fails either before anything happened (EState: already finalized / a file is
+     open) or -- SerializationError, EDeser -- AFTER the state became Finalized and the
+     EndOfArchiveData block was written: over the bincode limit nothing more is written, from
+     2^32 on (only reachable when the limit is that large) the map is written without its length *)
+  Lemma w_finalize_refused s s' e : w_finalize_with order s = (s', Err e) ->
+    (s' = s /\ e = EState) \/
+    (e = EDeser /\ w_final s = false /\ w_open s = [] /\
+     ((lim < len (ser_footer_map (order (w_footer s))) /\
+       s' = w_finalized s (w_out s ++ ser_block T_START T_CONTENT T_EOA T_EOF BEnd)) \/
+      (len (ser_footer_map (order (w_footer s))) <= lim /\ 2 ^ 32 <= len (ser_footer_map (order (w_footer s))) /\
+       s' = w_finalized s (w_out s ++ ser_block T_START T_CONTENT T_EOA T_EOF BEnd ++ ser_footer_map (order (w_footer s)))))).
   Proof.
     unfold Writer.w_finalize_with. destruct (w_final s); [intros [= <- <-]; auto|].
-    destruct (w_open s); [discriminate | intros [= <- <-]; auto].
+    destruct (w_open s); [|intros [= <- <-]; auto]. cbv zeta.
+    destruct (N.ltb_spec lim (len (ser_footer_map (order (w_footer s))))) as [Hl|Hl].
+    { intros [= <- <-]. right. repeat split; auto. }
+    destruct (N.leb_spec (2 ^ 32) (len (ser_footer_map (order (w_footer s))))) as [H32|H32]; [|discriminate].
+    intros [= <- <-]. right. repeat split; auto.
+  Qed.
+  Lemma w_finalize_refused_pre s s' e : w_finalize_with order s = (s', Err e) -> pre_write e = true -> s' = s.
+  Proof.
+    intros Hs He. apply w_finalize_refused in Hs. destruct Hs as [[-> _]|[-> _]]; [reflexivity | discriminate].
+  Qed.
+  (* a successful finalize: the footer fits the limit and the u32 length field, and the state
+     is the one the model without limit produced *)
+  Lemma w_finalize_ok s s' v : w_finalize_with order s = (s', Ok v) ->
+    w_final s = false /\ w_open s = [] /\ v = 0 /\
+    len (ser_footer_map (order (w_footer s))) <= lim /\ len (ser_footer_map (order (w_footer s))) < 2 ^ 32 /\
+    s' = mkW (w_out s ++ ser_block T_START T_CONTENT T_EOA T_EOF BEnd ++ ser_footer (order (w_footer s))) true []
+             (w_files s) (w_ids s) (w_next s) (w_cur s).
+  Proof.
+    unfold Writer.w_finalize_with. destruct (w_final s); [discriminate|].
+    destruct (w_open s); [|discriminate]. cbv zeta.
+    destruct (N.ltb_spec lim (len (ser_footer_map (order (w_footer s))))) as [Hl|Hl]; [discriminate|].
+    destruct (N.leb_spec (2 ^ 32) (len (ser_footer_map (order (w_footer s))))) as [H32|H32]; [discriminate|].
+    intros [= <- <-]. repeat split; auto.
+  Qed.
+  (* and conversely: within the limits, with no file open, finalize succeeds *)
+  Lemma w_finalize_fits s : w_final s = false -> w_open s = [] ->
+    len (ser_footer_map (order (w_footer s))) <= lim -> len (ser_footer_map (order (w_footer s))) < 2 ^ 32 ->
+    w_finalize_with order s =
+      (mkW (w_out s ++ ser_block T_START T_CONTENT T_EOA T_EOF BEnd ++ ser_footer (order (w_footer s))) true []
+           (w_files s) (w_ids s) (w_next s) (w_cur s), Ok 0).
+  Proof.
+    intros Hf Ho Hl H32. unfold Writer.w_finalize_with. rewrite Hf, Ho. cbv zeta.
+    destruct (N.ltb_spec lim (len (ser_footer_map (order (w_footer s))))); [lia|].
+    destruct (N.leb_spec (2 ^ 32) (len (ser_footer_map (order (w_footer s))))); [lia|]. reflexivity.
+  Qed.
+  (* C09: the SerializationError of finalize is NOT a refusal: the end marker is in the
+     destination and the writer is Finalized (every later call but flush is refused) *)
+  Theorem finalize_ser_error_wrote s s' : w_finalize_with order s = (s', Err EDeser) ->
+    w_final s' = true /\ s' <> s /\
+    exists tail, w_out s' = w_out s ++ ser_block T_START T_CONTENT T_EOA T_EOF BEnd ++ tail /\
+      (tail = [] \/ tail = ser_footer_map (order (w_footer s))).
+  Proof.
+    intros Hs. pose proof (w_finalize_refused _ _ _ Hs) as [[_ Hx]|(_ & Hf & _ & [[_ ->]|(_ & _ & ->)])]; [discriminate| |].
+    - cbn [w_finalized w_final w_out]. split; [reflexivity|]. split.
+      + intros Hc. rewrite <- Hc in Hf. discriminate.
+      + exists []. rewrite app_nil_r. auto.
+    - cbn [w_finalized w_final w_out]. split; [reflexivity|]. split.
+      + intros Hc. rewrite <- Hc in Hf. discriminate.
+      + eexists. split; [reflexivity | auto].
   Qed.
 
   (* after a successful start, appending to and ending the new file are not refused *)
@@ -120,7 +180,7 @@ Section WriterProofs.
       + injection Hs as <- <-. apply w_start_refused in E1. tauto.
       + discriminate.
     - discriminate.
-    - apply w_finalize_refused in Hs. tauto.
+    - exact (w_finalize_refused_pre _ _ _ Hs He).
   Qed.
 
   (* C09: the sequence continues, and the refused calls can be erased: running only the calls
